@@ -15,9 +15,9 @@ SRC = '.test "a" {\n    lda #1\n    ldx #3\nl:\n    dex\n    bne l\n    nop\nfor
 SRC_LONG = ('.test "a" {\n    lda #20\n    jsr delay\n    nop\nforever:\n    jmp forever\ndelay:\n    sta $90\nd0:\n    ldx #0\nd1:\n    ldy #0\nd2:\n    dey\n'
             '    bne d2\n    dex\n    bne d1\n    dec $90\n    bne d0\n    rts\n}\n')
 STATES = ["no-debugger", "attached-idle", "launched-not-started", "stopped-at-breakpoint", "running", "paused", "debugger-disconnected-again",
-          "next-over-long-call"]
+          "next-over-long-call", "continue-before-configuration-done", "step-out-that-never-returns"]
 ORDERS = ["shutdown-exit", "disconnect-then-shutdown", "shutdown-then-disconnect", "stdin-eof", "exit-without-shutdown-response-wait",
-          "stdout-closed-then-stdin-eof"]
+          "stdout-closed-then-stdin-eof", "debugger-attaches-between-shutdown-and-exit"]
 
 
 def threads_state(pid):
@@ -49,6 +49,7 @@ def scenario(state, order, sched_seed, watchdog):
     obs = {"state": state, "order": order, "sched": env["MOS_VERIF_SCHED"]}
     srv = None
     dap = None
+    late = None
     try:
         open(os.path.join(d, "mos.toml"), "w").write("")
         path = os.path.join(d, "main.asm")
@@ -66,16 +67,24 @@ def scenario(state, order, sched_seed, watchdog):
                 r = dap.request("launch", {"workspace": d, "testRunner": {"testCaseName": "a"}})
                 if not r.get("success"):
                     return dict(obs, verdict="inconclusive", why="launch failed: %r" % (r,))
-                if state in ("stopped-at-breakpoint", "debugger-disconnected-again"):
+                if state in ("stopped-at-breakpoint", "debugger-disconnected-again", "step-out-that-never-returns"):
                     dap.request("setBreakpoints", {"source": {"path": path}, "breakpoints": [{"line": 5}]})
+                if state == "continue-before-configuration-done":
+                    # the client resumes a machine it has not started yet
+                    dap.request("continue", {"threadId": 1}, timeout=5)
+                    time.sleep(0.05)
                 if state == "next-over-long-call":
                     dap.request("setBreakpoints", {"source": {"path": path}, "breakpoints": [{"line": 3}]})
-                if state != "launched-not-started":
+                if state not in ("launched-not-started", "continue-before-configuration-done"):
                     dap.request("configurationDone", None)
-                    if state in ("stopped-at-breakpoint", "debugger-disconnected-again", "next-over-long-call"):
+                    if state in ("stopped-at-breakpoint", "debugger-disconnected-again", "next-over-long-call", "step-out-that-never-returns"):
                         i, e = dap.wait_event("stopped", 0, 10)
                         if e is None:
                             return dict(obs, verdict="inconclusive", why="never stopped")
+                        if state == "step-out-that-never-returns":
+                            # the test's top level ends in an endless loop: there is no RTS to step out to
+                            dap.send("stepOut", {"threadId": 1})
+                            time.sleep(0.05)
                         if state == "next-over-long-call":
                             # the session thread is busy stepping over the call when the shutdown arrives
                             dap.send("next", {"threadId": 1})
@@ -121,6 +130,16 @@ def scenario(state, order, sched_seed, watchdog):
         elif order == "exit-without-shutdown-response-wait":
             srv.send({"jsonrpc": "2.0", "id": 9999, "method": "shutdown", "params": None})
             srv.notify("exit", None)
+        elif order == "debugger-attaches-between-shutdown-and-exit":
+            r = srv.request("shutdown", None, timeout=watchdog)
+            obs["shutdown_response"] = "result" in r or r
+            try:
+                late = DapClient(srv.port)
+                late.send("initialize", {"adapterID": "mos", "linesStartAt1": True, "columnsStartAt1": True})
+                time.sleep(0.05)
+            except Exception:
+                late = None
+            srv.notify("exit", None)
         else:
             r = srv.request("shutdown", None, timeout=watchdog)
             obs["shutdown_response"] = "result" in r or r
@@ -144,6 +163,11 @@ def scenario(state, order, sched_seed, watchdog):
             obs["threads"] = b
             if a is not None and a == b and all(t[1] in "SD" for t in b):
                 obs["verdict"] = "hung"
+            elif state == "step-out-that-never-returns" and b"LSP ended" in srv.stderr:
+                # not a matter of time: the language server has ended (its log says so) and what the process still waits for - the
+                # step out of code that has no RTS - never ends by construction of the program
+                obs["verdict"] = "hung"
+                obs["why"] = "the language server has ended; the process waits for a step that never returns"
             else:
                 obs["verdict"] = "inconclusive"
                 obs["why"] = "still consuming CPU after the watchdog"
@@ -160,6 +184,8 @@ def scenario(state, order, sched_seed, watchdog):
     finally:
         if dap:
             dap.close()
+        if late:
+            late.close()
         if srv:
             srv.kill()
         shutil.rmtree(d, ignore_errors=True)
@@ -202,9 +228,9 @@ def main(tier, seed):
     return finish(
         "C20", tier, seed, acc, t0,
         rule="every combination of session state {no debugger, attached idle, launched but not started, stopped at a breakpoint, running "
-             "(endless loop), paused, debugger disconnected again} x shutdown order {shutdown+exit, DAP disconnect then shutdown, shutdown "
+             "(endless loop), paused, debugger disconnected again, `continue` sent before configurationDone, a stepOut that never returns} x shutdown order {shutdown+exit, DAP disconnect then shutdown, shutdown "
              "then disconnect, stdin closed without shutdown, shutdown+exit without waiting for the response, the client's stdout end closed while "
-             "notifications are in flight followed by stdin EOF}, plus the state `next` stepping over a long-running call, against a real `mos lsp` "
+             "notifications are in flight followed by stdin EOF, a second debugger attaching between `shutdown` and `exit`}, plus the state `next` stepping over a long-running call, against a real `mos lsp` "
              "process with seeded H2 schedule perturbation; quick repeats every combination 8 times, thorough 120 times. The process must exit with "
              "status 0 and nothing may listen on the debug port afterwards; a process that is still there after the 10 s watchdog is "
              "judged by two /proc samples (all threads sleeping, no CPU progress = hung; otherwise inconclusive). Non-trivial = distinct "
